@@ -13,7 +13,7 @@ from vlib import c13_insert as ci
 from vlib.gen import chance, pick
 
 ID = "C13"
-CASES = {"quick": 1500, "thorough": 40000}
+CASES = {"quick": 6000, "thorough": 120000}
 SOFT = 12
 HARD = 90
 RULE = ("case = grammar (random: recursive/epsilon/multi-char terminals, with or without unit cycles; or zoo) + host "
@@ -92,7 +92,7 @@ def selftest():
 def _grammar(rnd):
     r = rnd.random()
     if r > 0.65:
-        name = pick(rnd, ["lang", "blk", "xml", "eps", "csv", "rec", "int"])
+        name = pick(rnd, ["lang", "blk", "xml", "eps", "csv", "rec", "int", "pairs", "pairs", "amb"])
         return name, gen.ZOO[name]
     if r > 0.55:
         return "random_raw", gen.grammar(rnd, max_nts=6)
@@ -282,11 +282,24 @@ def judge(case):
         labels.append("judged_after_optimized_rerun")
     except Exception as e:
         tb = traceback.extract_tb(e.__traceback__)
-        labels.append("crash")
-        labels.append("crash:%s@%s" % (type(e).__name__, tb[-1].name))
-        counters["crashes"] = 1
-        return {"labels": labels, "nontrivial": False, "violations": [], "inconclusive": None, "counters": counters,
-                "sample": {"crash": "%s@%s:%d %s" % (type(e).__name__, tb[-1].name, tb[-1].lineno, str(e)[:200])}}
+        # an exception raised while an `assert` of existential_helpers evaluates its condition (assert
+        # graph.tree_is_valid(t) raises SyntaxError for an invalid tree) is an internal assertion in disguise: with the
+        # assertions compiled away (python -O) the call returns trees, and those are judged
+        results = None
+        if any(fr.filename.endswith("existential_helpers.py") and (fr.line or "").lstrip().startswith("assert ") for fr in tb):
+            try:
+                results = ci.call_insert(case, noassert=True)
+            except Exception:
+                results = None
+        if results is None:
+            labels.append("crash")
+            labels.append("crash:%s@%s" % (type(e).__name__, tb[-1].name))
+            counters["crashes"] = 1
+            return {"labels": labels, "nontrivial": False, "violations": [], "inconclusive": None, "counters": counters,
+                    "sample": {"crash": "%s@%s:%d %s" % (type(e).__name__, tb[-1].name, tb[-1].lineno, str(e)[:200])}}
+        mode = "optimized"
+        labels.append("exception_inside_assertion")
+        labels.append("judged_after_optimized_rerun")
 
     nres = len(results)
     labels.append("results=0" if nres == 0 else "results=1" if nres == 1 else "results=2-9" if nres < 10 else "results>=10")
